@@ -95,6 +95,114 @@ theorem C02_own_response (cfg : Cfg) (progs : List (List Op)) (σ : List Nat) :
     intro e
     simp [GoodRes, e] at this
 
+/-! ## No lost slot, no deadlock (runs without `close`) -/
+
+/-- **No lost slot.**  Without `close` ops a `block=True` pool conserves its slots under every
+schedule: queue length + leases (checkouts in flight and unreleased streaming responses, summed
+over all threads) = `maxsize`; and the pool is never closed behind the threads' back. -/
+theorem C02_no_lost_slot (cfg : Cfg) (progs : List (List Op)) (σ : List Nat)
+    (hc : NoClose progs) (hb : cfg.block = true) :
+    let s := run cfg progs σ
+    s.sh.queue.length + leases s = cfg.maxsize ∧ s.sh.poolRef ≠ none := by
+  intro s
+  have hn := invNC_run cfg hc σ
+  have hcfg : s.cfg = cfg := by simp [s, run, init]
+  have := hn.cons (by rw [hcfg]; exact hb)
+  rw [hcfg] at this
+  exact ⟨this, hn.pool⟩
+
+/-- non-vacuity: two threads on a `block=True` pool of size 1, one of them mid-request -/
+example : NoClose [[.req 0 .ok true, .release], [.req 1 .ok false]] ∧
+    (let s := run ⟨1, true, false⟩ [[.req 0 .ok true, .release], [.req 1 .ok false]] [0, 0, 0, 1, 1]
+     s.sh.queue.length = 0 ∧ leases s = 1) := by
+  refine ⟨?_, by decide⟩
+  intro p hp
+  simp at hp
+  rcases hp with rfl | rfl <;> simp
+
+/-- **Progress (no deadlock, no lost wake-up).**  Threads that never call `close` and release
+every streaming response before their next request and before they end (`LeaseDiscipline`), on a
+pool with `maxsize ≥ 1` (any `block` / `pool_timeout`): under every schedule, a configuration in
+which some thread is not finished has an enabled thread.  In particular a thread blocked in
+`get()` is always accompanied by a thread that can run (the one holding the slot). -/
+theorem C02_progress (cfg : Cfg) (progs : List (List Op)) (σ : List Nat)
+    (hd : LeaseDiscipline progs) (hN : 0 < cfg.maxsize)
+    (hnd : allDone (run cfg progs σ) = false) : ∃ t, enabled (run cfg progs σ) t = true := by
+  have hp := invP_run cfg hd σ
+  have hcfg : (run cfg progs σ).cfg = cfg := by simp [run, init]
+  exact progress hp (by rw [hcfg]; exact hN) hnd
+
+/-- **All slots come back.**  Under the same discipline, when every thread is finished the queue
+of a `block=True` pool is full again (`qsize() = maxsize`) and nothing is held. -/
+theorem C02_quiescent_slots (cfg : Cfg) (progs : List (List Op)) (σ : List Nat)
+    (hd : LeaseDiscipline progs) (hb : cfg.block = true)
+    (hdone : allDone (run cfg progs σ) = true) :
+    (run cfg progs σ).sh.queue.length = cfg.maxsize ∧ leases (run cfg progs σ) = 0 := by
+  have hp := invP_run cfg hd σ
+  have hz : leases (run cfg progs σ) = 0 := by
+    apply sum_map_eq_zero
+    intro th hmem
+    obtain ⟨t, g⟩ := List.getElem?_of_mem hmem
+    exact (hp.d t th g).slots_done (by simpa [allDone] using List.all_eq_true.mp hdone th hmem)
+  have := (C02_no_lost_slot cfg progs σ hd.noClose hb).1
+  simp only [hz] at this
+  exact ⟨by simpa using this, hz⟩
+
+/-- non-vacuity: the discipline holds for a streamed-and-released request next to a retried one
+(the harness's program shapes), the pool has `maxsize = 1`, and the run is not finished -/
+example : LeaseDiscipline [[.req 0 .ok true, .release], [.req 1 .ok false]] ∧
+    allDone (run ⟨1, true, false⟩ [[.req 0 .ok true, .release], [.req 1 .ok false]]
+      [0, 0, 0, 1, 1, 1]) = false := by
+  refine ⟨?_, by decide⟩
+  intro p hp
+  simp at hp
+  rcases hp with rfl | rfl <;> decide
+
+/-- **No livelock.**  Every step of every thread — in any configuration, with or without
+`close` — strictly decreases the measure `work` (`2 * qsize` + the steps the threads still have to
+do): every schedule makes at most `work (init cfg progs)` effective steps. -/
+theorem C02_step_decreases_work (s s' : State) (t : Nat) (h : step s t = some s') :
+    work s' < work s := work_step h
+
+/-- non-vacuity: a step that exists -/
+example : ∃ s', step (init ⟨1, true, false⟩ [[.req 0 .ok false]]) 0 = some s' := ⟨_, rfl⟩
+
+/-- **Every request eventually completes.**  Under the lease discipline and `maxsize ≥ 1`, from
+every reachable configuration the run can be completed (progress + the decreasing measure: keep
+choosing any enabled thread), and in the final configuration every op of every thread has got
+exactly one result, in program order. -/
+theorem C02_every_request_completes (cfg : Cfg) (progs : List (List Op)) (σ : List Nat)
+    (hd : LeaseDiscipline progs) (hN : 0 < cfg.maxsize) :
+    ∃ σ', allDone (runFrom (run cfg progs σ) σ') = true ∧
+      (results (runFrom (run cfg progs σ) σ')).map (fun rs => rs.map Prod.fst) = progs := by
+  have hp := invP_run cfg hd σ
+  have hcfg : (run cfg progs σ).cfg = cfg := by simp [run, init]
+  obtain ⟨σ', hσ'⟩ := exists_completion _ _ hp (by rw [hcfg]; exact hN) (Nat.le_refl _)
+  refine ⟨σ', hσ', ?_⟩
+  have hrun : runFrom (run cfg progs σ) σ' = run cfg progs (σ ++ σ') := by
+    simp [run, runFrom, List.foldl_append]
+  have hs := script_run cfg progs (σ ++ σ')
+  rw [hrun] at hσ' ⊢
+  refine Eq.trans ?_ hs
+  simp only [results, List.map_map]
+  apply List.map_congr_left
+  intro th hth
+  have : th.done = true := by simpa [allDone] using List.all_eq_true.mp hσ' th hth
+  have hprog : th.prog = [] := by
+    unfold Thread.done at this
+    split at this
+    · assumption
+    · simp at this
+  simp [Thread.script, hprog]
+
+/-- the discipline is needed: a streaming response that is never released starves the other
+thread of a `block=True`, `maxsize=1` pool for ever -/
+theorem C02_progress_needs_release_witness :
+    let s := run ⟨1, true, false⟩ [[.req 0 .ok true], [.req 0 .ok false]] [0, 0, 0, 0, 0, 1, 1, 1]
+    stuck s = true ∧ allDone s = false ∧ ∀ σ, runFrom s σ = s := by
+  refine ⟨by decide, by decide, ?_⟩
+  exact runFrom_of_stuck (by decide)
+
 /-! ## Concurrent `close()` -/
 
 /-- number of `close` ops in the thread programs -/
@@ -112,13 +220,13 @@ produce the exceptions.
 calls, every finished op has a result in {`ok`, `closedPool`, `emptyPool`, `failed`} — never
 `FullPoolError`, never a foreign response — except for an internal error (`AttributeError`) in
 exactly two situations: a request / `release_conn` of a **`block=False`** pool (the
-`self.pool.qsize()` argument of the "pool is full" warning, known finding), and a `close()` when
-the programs contain **at least two** `close()` calls (the second closer passes `None` to
+`self.pool.qsize()` argument of the "pool is full" warning, known finding) raced by a `close()`, and
+a `close()` when the programs contain **at least two** `close()` calls (the second closer passes `None` to
 `_close_pool_connections`). -/
 theorem C02_close_race_partial (cfg : Cfg) (progs : List (List Op)) (σ : List Nat) :
     ∀ rs ∈ results (run cfg progs σ), ∀ p ∈ rs,
       p.2 = .ok ∨ p.2 = .closedPool ∨ p.2 = .emptyPool ∨ p.2 = .failed ∨
-      (p.2 = .internalErr ∧ p.1 ≠ .close ∧ cfg.block = false) ∨
+      (p.2 = .internalErr ∧ p.1 ≠ .close ∧ cfg.block = false ∧ 1 ≤ closeCount progs) ∨
       (p.2 = .internalErr ∧ p.1 = .close ∧ 2 ≤ closeCount progs) := by
   intro rs hrs p hp
   have hi := invAll_run cfg progs σ
@@ -152,6 +260,79 @@ theorem C02_close_race_block (cfg : Cfg) (progs : List (List Op)) (σ : List Nat
 example : closeCount [[.req 0 .ok false], [.close]] ≤ 1 ∧
     results (run ⟨1, true, true⟩ [[.req 0 .ok false], [.close]] [1, 1, 1, 1, 1, 0]) =
       [[(.req 0 .ok false, .closedPool)], [(.close, .ok)]] := by decide
+
+/-
+Full statement (false: `C02_close_strands_waiter_witness`): with a concurrent `close()` no request
+ever hangs.  Proved under the precise hypothesis that excludes the finding:
+-/
+/-- **Close race never hangs (partial).**  Unless the pool is `block=True` *without* `pool_timeout`,
+no thread can ever be blocked — with any number of `close()` calls, under every schedule: a thread
+that is not finished is enabled.  In general (any configuration) a thread that is not enabled is
+finished or sits in a blocking `get()` without timeout on the empty queue. -/
+theorem C02_close_never_hangs_partial (cfg : Cfg) (progs : List (List Op)) (σ : List Nat)
+    (t : Nat) (th : Thread) (hget : (run cfg progs σ).threads[t]? = some th)
+    (hen : enabled (run cfg progs σ) t = false) :
+    th.done = true ∨
+      ((∃ f l st, th.pc = .getQ f l st) ∧ (run cfg progs σ).sh.queue = [] ∧
+        cfg.block = true ∧ cfg.timeout = false) := by
+  have hc : (run cfg progs σ).cfg = cfg := by simp [run, init]
+  have := not_enabled hget hen
+  rw [hc] at this
+  exact this
+
+/-- non-vacuity: a finished thread is a thread that is not enabled -/
+example : enabled (run ⟨1, true, true⟩ [[.close]] [0, 0, 0, 0, 0]) 0 = false := by decide
+
+/-- **Results are the scripted ones.**  Under every schedule: `ClosedPoolError` only for a
+request and only if some thread calls `close()`; `EmptyPoolError` only for a request on a
+`block=True` pool with a `pool_timeout`; `MaxRetryError` (`failed`) only for a request whose last
+attempt is scripted to fail; and a request that ends `ok` is one whose last attempt is scripted to
+succeed. -/
+theorem C02_results_as_scripted (cfg : Cfg) (progs : List (List Op)) (σ : List Nat) :
+    ∀ rs ∈ results (run cfg progs σ), ∀ p ∈ rs,
+      (p.2 = .closedPool → 1 ≤ closeCount progs ∧ ∃ f l st, p.1 = .req f l st) ∧
+      (p.2 = .emptyPool → cfg.block = true ∧ cfg.timeout = true ∧ ∃ f l st, p.1 = .req f l st) ∧
+      (p.2 = .failed → ∃ f st, p.1 = .req f .fail st) ∧
+      (p.2 = .ok → ∀ f l st, p.1 = .req f l st → l = .ok) := by
+  intro rs hrs p hp
+  have hi := invAll_run cfg progs σ
+  simp only [results, List.mem_map] at hrs
+  obtain ⟨th, hth, rfl⟩ := hrs
+  obtain ⟨t, g⟩ := List.getElem?_of_mem hth
+  obtain ⟨h1, h2, h3, h4⟩ := hi.scr.scr t th g p hp
+  have hc : (run cfg progs σ).cfg = cfg := by simp [run, init]
+  have hn : closeTotal (run cfg progs σ) = closeCount progs := by
+    rw [run, closeTotal_runFrom, closeTotal_init]; rfl
+  rw [hc] at h2
+  rw [hn] at h1
+  have hk : ∀ op : Op, op.kind = 0 → ∃ f l st, op = .req f l st := by
+    intro op h; cases op <;> simp at h; exact ⟨_, _, _, rfl⟩
+  exact ⟨fun h => ⟨(h1 h).1, hk _ (h1 h).2⟩, fun h => ⟨(h2 h).1, (h2 h).2.1, hk _ (h2 h).2.2⟩, h3, h4⟩
+
+/-- **Without `close()` everything ends as scripted.**  No `close` op in the programs: under every
+schedule a finished request ended `ok` (last attempt scripted `ok`), with `MaxRetryError` (last
+attempt scripted `fail`) or — `block=True` with `pool_timeout` only — with `EmptyPoolError`;
+`release_conn` always ends normally. -/
+theorem C02_no_close_results (cfg : Cfg) (progs : List (List Op)) (σ : List Nat)
+    (h0 : closeCount progs = 0) :
+    ∀ rs ∈ results (run cfg progs σ), ∀ p ∈ rs,
+      (p.2 = .ok ∧ ∀ f l st, p.1 = .req f l st → l = .ok) ∨
+      (p.2 = .failed ∧ ∃ f st, p.1 = .req f .fail st) ∨
+      (p.2 = .emptyPool ∧ cfg.block = true ∧ cfg.timeout = true ∧ ∃ f l st, p.1 = .req f l st) := by
+  intro rs hrs p hp
+  obtain ⟨h1, h2, h3, h4⟩ := C02_results_as_scripted cfg progs σ rs hrs p hp
+  rcases C02_close_race_partial cfg progs σ rs hrs p hp with h | h | h | h | h | h
+  · exact Or.inl ⟨h, h4 h⟩
+  · have := (h1 h).1; omega
+  · exact Or.inr (Or.inr ⟨h, h2 h⟩)
+  · exact Or.inr (Or.inl ⟨h, h3 h⟩)
+  · have := h.2.2.2; omega
+  · have := h.2.2; omega
+
+/-- non-vacuity: a retried request on a pool without closer ends `ok` -/
+example : closeCount [[.req 1 .ok false]] = 0 ∧
+    results (run ⟨1, true, false⟩ [[.req 1 .ok false]] (List.replicate 16 0)) =
+      [[(.req 1 .ok false, .ok)]] := by decide
 
 /-- **Where the internal error arises.**  From every reachable configuration, a step of thread `t`
 adds an `internalErr` result only when `self.pool` is already `None` and the thread is at the
